@@ -12,7 +12,7 @@ import concurrent.futures
 import itertools
 import subprocess
 
-from harness import core
+from harness import c08_classes, core
 
 WRAP = r'''
 import sys, runpy, traceback
@@ -88,6 +88,52 @@ def families(rng, quick):
     add("remove-module-global", "simple", "global x\nx = 1\nx = x + 1\nprint(x)\n")
     add("remove-module-global", "two", "global a, b\na = 1\nb = 2\nprint(a + b)\ndef f():\n    global a\n    a = 5\nf()\nprint(a)\n")
     add("remove-module-global", "in-if", "import sys\nif len(sys.argv) >= 0:\n    global c\n    c = 3\nprint(c)\n")
+    # ---- mechanisms reported by an independent review of the unchanged tree (corpus/C08/programs.json), as families
+    for fn in ("any", "all"):
+        for thr in (0, 1, 2, 5):
+            add("use-generator", f"effect:{fn}:{thr}",
+                f"seen = []\ndef check(v):\n    seen.append(v)\n    return v > {thr}\nprint({fn}([check(v) for v in [1, 2, 3]]), seen)\n")
+    for fn in ("sum", "min", "max"):
+        add("use-generator", f"effect:{fn}", f"seen = []\ndef check(v):\n    seen.append(v)\n    return v * 2\nprint({fn}([check(v) for v in [1, 2, 3]]), seen)\n")
+    for fn, data in [("any", "[[0, 0, 0]]"), ("all", "[[1, 0]]"), ("max", "[[1, 5], [2, 3]]"), ("sum", "[[1, 2]]"), ("any", "[[]]")]:
+        add("use-generator", f"starred:{fn}:{data}", f"data = {data}\ntry:\n    print({fn}(*[row for row in data]))\nexcept TypeError:\n    print('TypeError')\n")
+    add("use-generator", "await", "import asyncio\nasync def val(v):\n    return v\nasync def main():\n    print(any([await val(v) for v in [0, 1]]))\nasyncio.run(main())\n")
+    add("use-generator", "nested", "def wrap(x):\n    return x\nr = wrap(\n    any([i for i in range(3)]),\n)\nprint(r, any([any([y for y in x]) for x in [[0], [1]]]))\n")
+    for arg in ["*[[1, 2]]", "*[[]]", "[1, *[2, 3]]", "*[(1, 2)]", "[*'ab']"]:
+        add("use-set-literal", f"starred:{arg}", f"try:\n    print(sorted(set({arg})))\nexcept TypeError:\n    print('TypeError')\n")
+    for pair in ['("a", 0)', '("b",)', '("z", 0, 2)']:
+        add("combine-startswith-endswith", f"starred:{pair}",
+            f"s = 'abc'\npair = {pair}\nprint(s.startswith(*pair) or s.startswith('zz'))\nprint(s.endswith('q') or s.endswith(*pair))\n")
+    for value in ["a or b", "a and b", "1, 2", "not a", "a if b else None", "a == b", "lambda: 0", "a + b", "[a, b]", "(a, b)", "a or None"]:
+        for c in ["x is None", "x", "x == 5", "not x"]:
+            add("use-walrus-if", f"value:{value}:{c}", f"a, b = 5, 0\nx = {value}\nif {c}:\n    print('then')\nelse:\n    print('else')\n")
+            add("use-walrus-if", f"value-used:{value}:{c}", f"a, b = 5, 0\nx = {value}\nif {c}:\n    print('then', x is None)\nelse:\n    print('else', x is None)\n")
+    for c in ["x is None", "x", "x > 3"]:
+        add("use-walrus-if", f"nested-read:{c}",
+            f"def f():\n    x = 41 + 1\n    if {c}:\n        return None\n    def g():\n        return x\n    return g()\nprint(f())\n")
+        add("use-walrus-if", f"lambda-read:{c}", f"def f():\n    x = 41 + 1\n    if {c}:\n        return 'early'\n    return (lambda: x)()\nprint(f())\n")
+        add("use-walrus-if", f"generator-fn:{c}", f"def f():\n    x = yield 1\n    if {c}:\n        yield 'none'\n    else:\n        yield 'some'\nprint(list(f()))\n")
+    for m in ['"total: " + n + "!"', '"n=" + n', '"%s and %s" % args', '"%s" % args', '"progress " + pct + "% done"', '"100% " + pct',
+              '"line\\n" + r"\\d " + pct', 'r"\\d " + pct + "\\n"', '"a %d" % n', '"a %s" % (n,)']:
+        add("lazy-logging", f"operand:{m}", LOG_PRELUDE + "logging.raiseExceptions = False\nn = 5\nargs = (1, 2)\npct = '50'\n"
+            f"logging.info({m})\nprint('end')\n")
+    leak_pre = "import os, tempfile\np = os.path.join(tempfile.mkdtemp(), 't.txt')\nopen(p, 'w').write('hello')\n"
+    add("fix-file-resource-leak", "nested-read", leak_pre + "f = open(p)\ndef show():\n    print(f.read())\nshow()\n")
+    add("fix-file-resource-leak", "unused-handle", "import os, tempfile\np = os.path.join(tempfile.mkdtemp(), 't.txt')\ndef touch():\n    f = open(p, 'w')\ntouch()\nprint(os.path.exists(p))\n")
+    for ret in ["(f, 1)", "[f]", "{'h': f}", "f"]:
+        add("fix-file-resource-leak", f"escape:{ret}", leak_pre + f"def get():\n    f = open(p)\n    box = {ret}\n    return box\nr = get()\n"
+            "h = r if hasattr(r, 'read') else (r['h'] if isinstance(r, dict) else r[0])\nprint(h.read())\n")
+    for imp in ["from abc import ABC, abstractproperty", "import abc\nfrom abc import ABC, abstractproperty"]:
+        for shadow in ["abc = 'alphabet'", "def abc():\n    return 1", "x = 1"]:
+            add("fix-deprecated-abstractproperty", f"shadow:{shadow[:6]}:{imp[:8]}",
+                f"{imp}\n{shadow}\nclass A(ABC):\n    @abstractproperty\n    def p(self):\n        return 1\nprint(type(A.__dict__['p']).__name__ != '')\n")
+    for imps in [["import sys", "import os", "import json"], ["from os.path import join", "import abc", "from json import dumps"],
+                 ["from string import capwords as f", "from os.path import basename as f"], ["from os.path import basename as split", "from os.path import *"],
+                 ["import os.path", "import os"], ["from os.path import *", "from posixpath import join as split"]]:
+        add("order-imports", " ; ".join(imps), "\n".join(imps) + "\nimport os.path\nf = globals().get('f', len)\nsplit = globals().get('split', len)\n"
+            "print(f('a/b c'), split('a/b'), sorted(k for k in ('os', 'sys', 'json', 'abc', 'join', 'dumps') if k in globals()))\n")
+    for name, src in sql_extra_programs():
+        add("sql-parameterization", name, src)
     # ---- sql-parameterization (benign parameter values): see sql_programs()
     for name, src in sql_programs(rng, 40 if quick else 400):
         add("sql-parameterization", name, src)
@@ -99,7 +145,7 @@ def families(rng, quick):
         rng.shuffle(out)
         for p in out:
             keep.setdefault(p["codemod"], [])
-            if len(keep[p["codemod"]]) < (30 if p["codemod"] == "sql-parameterization" else 14):
+            if len(keep[p["codemod"]]) < {"sql-parameterization": 30, "use-walrus-if": 24, "lazy-logging": 20}.get(p["codemod"], 14):
                 keep[p["codemod"]].append(p)
         out = [p for ps in keep.values() for p in ps]
     return out
@@ -119,6 +165,22 @@ def py_literal(text, q, prefix=""):
     if q == "'":
         body = body.replace("'", "\\'")
     return prefix + q + body + q
+
+
+def sql_extra_programs():
+    """format specifications and braces around a parameter, a side-effecting statement next to the query"""
+    out = []
+    pre = ("import sqlite3\nc = sqlite3.connect(':memory:').cursor()\nc.execute('CREATE TABLE items (code TEXT, name TEXT)')\n"
+           "c.executemany('INSERT INTO items VALUES (?, ?)', [('00007', '  bob'), ('7', 'bob'), ('{7}', '{bob}'), (\"'7'\", \"'bob'\")])\n")
+    queries = [('percent-width', '"SELECT code FROM items WHERE code = \'%05d\'" % n'), ('percent-s-width', '"SELECT name FROM items WHERE name = \'%5s\'" % name'),
+               ('percent-r', '"SELECT name FROM items WHERE name = %r" % name'), ('percent-d', '"SELECT code FROM items WHERE code = \'%d\'" % n'),
+               ('fstring-spec', 'f"SELECT name FROM items WHERE name = \'{name:>5}\'"'), ('fstring-conv', 'f"SELECT name FROM items WHERE name = {name!r}"'),
+               ('fstring-int', 'f"SELECT code FROM items WHERE code = \'{n:05d}\'"'), ('braces', '"SELECT name FROM items WHERE name = \'{" + name + "}\'"'),
+               ('fstring-braces', 'f"SELECT name FROM items WHERE name = \'{{{name}}}\'"'), ('plain', '"SELECT name FROM items WHERE name = \'" + name + "\'"')]
+    for tag, q in queries:
+        out.append((f"spec:{tag}", pre + f"def find(cursor, name, n):\n    cursor.execute({q})\n    return cursor.fetchall()\nprint(find(c, 'bob', 7))\nprint(find(c, 'x', 1))\n"))
+        out.append((f"audit:{tag}", pre + f"def find(cursor, name, n):\n    audit = print('lookup', name)\n    cursor.execute({q})\n    return cursor.fetchall()\nprint(find(c, 'bob', 7))\n"))
+    return out
 
 
 def sql_programs(rng, n):
@@ -191,6 +253,16 @@ def sql_programs(rng, n):
     return out
 
 
+def corpus_programs():
+    """programs on which the unchanged tree is known to change behaviour (each with the finding class it belongs to); run first"""
+    import json
+    f = core.VERIF / "corpus" / "C08" / "programs.json"
+    if not f.exists():
+        return []
+    return [{"codemod": p["codemod"], "name": f"corpus:{i}", "source": p["code"], "expect_class": p.get("expect_class"), "concat_ok": False}
+            for i, p in enumerate(json.loads(f.read_text()))]
+
+
 def execute(ctx, key, source, extra_files=None):
     d = ctx.scratch / "fam-exec" / key
     d.mkdir(parents=True, exist_ok=True)
@@ -240,7 +312,7 @@ def rewrite(ctx, jobs, tag, per_run=40):
                 ctx.mismatch(f"real CLI run of {cm} ({mode})", "the codemodder CLI failed on a generated project: " + r["stderr"][-400:], {"codemod": cm})
 
 
-def compare(ctx, jobs, tag, cls_prefix):
+def compare(ctx, jobs, tag, cls_prefix, classify=False):
     """execute original and rewritten program of every job whose file changed; any difference is a violation"""
     changed = [j for j in jobs if j.get("after") is not None and j["after"] != j["source"]]
     # every distinct (program, auxiliary files) is executed once, in its own directory
@@ -264,8 +336,14 @@ def compare(ctx, jobs, tag, cls_prefix):
         ctx.case({"codemod": j["codemod"], "family": j["name"], "configuration": cfg, "source": j["source"], "rewritten": j["after"], "observed": b},
                  nontrivial_key=("family", j["codemod"], j["source"], cfg), sample=False)
         j["obs"], j["obs_after"] = b, a
+        exp = j.get("expect_class")
+        known = c08_classes.classify(j["codemod"], j["source"], b, a) if classify else None
+        if known:
+            ctx.count("class:" + known)
+        if exp and (b == a or known != exp):
+            ctx.notes.append(f"corpus program ({exp}) not reproduced as such: differs={b != a} class={known}: {j['name']}")
         if b != a:
-            ctx.violation(cls_prefix + j["codemod"].replace("-", "_"),
+            ctx.violation(known or cls_prefix + j["codemod"].replace("-", "_"),
                           f"{j['codemod']} {cfg} changes the behaviour of program family {j['name']}: {b!r} -> {a!r}",
                           {"codemod": j["codemod"], "family": j["name"], "program": j["source"], "rewritten": j["after"],
                            "exclude": j.get("exclude"), "include": j.get("include"), "extra_files": j.get("extra_files"),
@@ -361,12 +439,12 @@ def line_stage(ctx, base_jobs):
 
 
 def run(ctx, kernel_programs=()):
-    progs = families(ctx.rng, ctx.quick()) + list(kernel_programs)
+    progs = corpus_programs() + families(ctx.rng, ctx.quick()) + list(kernel_programs)
     rewrite(ctx, progs, "fam")
     for p in progs:
         if p.get("after") is not None:
             ctx.count(f"family:{p['codemod']}:" + ("changed" if p["after"] != p["source"] else "unchanged"))
-    compare(ctx, progs, "fam", "kf_unmodelled_")
+    compare(ctx, progs, "fam", "kf_unmodelled_", classify=True)
     line_stage(ctx, progs)
 
 
